@@ -154,6 +154,7 @@ def run(ctx):
     _diyfp_product(ctx)
     _exponent_text(ctx)
     _interval_width_after_narrowing(ctx)
+    _cached_power_lands_in_the_window(ctx)
     # ------------------------------------------------------------ R18.3
     ps = db.fn("pstrtod")
     n_l = 0
@@ -733,3 +734,117 @@ def _interval_width_after_narrowing(ctx):
         ok = bool(steps) and first is not None and not G.reaches_avoiding(f, first, steps, where) and f.cfg.locate(first) != f.cfg.locate(where)
         ctx.ob("R18.9", "Grisu2|width-after|%s" % name.replace(" ", "-"), ok, f.loc(where),
                "the width is computed after the %s by one unit" % name if ok else "the width is computed BEFORE the %s: the digit generator's interval is too wide" % name)
+
+
+def _mini_eval(n, env):
+    """Evaluate an arithmetic expression tree over ints and doubles (C semantics for the operators GetCachedPower uses)."""
+    n = peel(n)
+    k = n.get("k")
+    if k == "int":
+        return int(n["v"])
+    if k == "flt":
+        return float(n["v"])
+    if k == "ref":
+        return env[n["d"]]
+    if k in ("cast", "paren", "scast", "icast"):
+        v = _mini_eval(n["e"], env)
+        ty = (n.get("ty") or n.get("t") or "")
+        if ty in ("int", "unsigned int", "unsigned", "long"):
+            return int(v)          # truncation toward zero, as static_cast<int>(double)
+        if ty == "double":
+            return float(v)
+        return v
+    if k == "un":
+        v = _mini_eval(n["e"], env)
+        return {"-": -v, "+": v}[n["op"]]
+    if k == "bin":
+        a, b = _mini_eval(n["x"], env), _mini_eval(n["y"], env)
+        op = n["op"]
+        if op == "+":
+            return a + b
+        if op == "-":
+            return a - b
+        if op == "*":
+            return a * b
+        if op == ">>":
+            return a >> b
+        if op == "<<":
+            return a << b
+        if op == "!=":
+            return int(a != b)
+        if op == "==":
+            return int(a == b)
+    raise ValueError("cannot evaluate " + str(k))
+
+
+def _cached_power_lands_in_the_window(ctx):
+    """R18.10: Grisu2 multiplies the boundaries of the double (binary exponent e) by a cached power of ten c_k and hands the
+    product to DigitGen, which splits it at bit -e' into a 32-bit integer part and a fraction: that only works if the
+    product's exponent e' = e + E[k] + 64 lies in the window [-60, -32].  GetCachedPower(e) picks k by a closed formula
+    (`(-61 - e) * log10(2) + 347`, rounded up, then `(k >> 3) + 1`).  The rule EVALUATES that formula, as written in the
+    source, for every e a double can produce and checks the window against the table's binary exponents - the property
+    of the constants, not their spelling.  (Seed S11-C18: -61 became -58; for 44 of 2046 exponents DigitGen lost bit 32
+    and `480000.0` was written as `50503.2704`.)"""
+    db = ctx.db
+    ctx.rule("R18.10", "for every binary exponent e in [-1137, 960] the index GetCachedPower(e) computes (formula evaluated from the source) gives -60 <= e + kCachedPowers_E[index] + 64 <= -32")
+    fs = [g for g in db.functions if g.name.split("::")[-1] == "GetCachedPower"]
+    if not fs:
+        ctx.broken("R18.10: GetCachedPower not found")
+        return
+    f = fs[0]
+    E = None
+    for y in f.walk():
+        if y.get("k") == "decls":
+            for dd in y["d"]:
+                if dd.get("n") == "kCachedPowers_E" and dd.get("init") is not None:
+                    E = [_fold(db, z) for z in (peel(dd["init"]).get("a") or peel(dd["init"]).get("e") or peel(dd["init"]).get("items") or [])]
+    if not E or any(v is None for v in E):
+        g = db.globals.get("kCachedPowers_E") or {}
+        init = peel(g.get("init")) if g.get("init") else None
+        if init is not None:
+            E = [_fold(db, z) for z in (init.get("a") or init.get("e") or init.get("items") or [])]
+    if not E or any(v is None for v in E):
+        ctx.broken("R18.10: kCachedPowers_E could not be read")
+        return
+    pe = (f.params or [{}])[0].get("d")
+    stmts = f.body.get("s", [])
+    bad = None
+    n_ok = 0
+    try:
+        for e in range(-1137, 961):
+            env = {pe: e}
+            index = None
+            for st in stmts:
+                if st.get("k") == "decls":
+                    for dd in st["d"]:
+                        if dd.get("n", "").startswith("kCachedPowers"):
+                            continue
+                        if dd.get("init") is not None:
+                            env[dd["d"]] = _mini_eval(dd["init"], env)
+                            if dd.get("n") == "index":
+                                index = env[dd["d"]]
+                elif st.get("k") == "if" and st.get("else") is None:
+                    if _mini_eval(st["c"], env):
+                        body = st["then"]
+                        for b in (body.get("s") if body.get("k") == "block" else [body]):
+                            b = peel(b)
+                            if b.get("k") == "un" and "++" in b.get("op", ""):
+                                env[peel(b["e"])["d"]] += 1
+                            elif b.get("k") == "un" and "--" in b.get("op", ""):
+                                env[peel(b["e"])["d"]] -= 1
+                            else:
+                                raise ValueError("statement in if")
+            if index is None or not (0 <= index < len(E)):
+                bad = (e, index, None)
+                break
+            w = e + E[index] + 64
+            if not (-60 <= w <= -32):
+                bad = (e, index, w)
+                break
+            n_ok += 1
+    except (ValueError, KeyError, TypeError) as ex:
+        ctx.broken("R18.10: GetCachedPower's index computation is no longer a straight formula the rule can evaluate (%s)" % ex)
+        return
+    ctx.ob("R18.10", "GetCachedPower|product-exponent-in-[-60,-32]", bad is None, f.loc(),
+           "all %d exponents land in the window" % n_ok if bad is None else
+           "for e = %d the formula picks index %s and the product's exponent is %s: outside [-60, -32]" % bad)
